@@ -54,7 +54,7 @@ CHECKS["C08"] = dict(
          "truncated frames and end-of-stream must raise (never a runtime error), bytes pulled per frame are bounded, every call makes "
          "progress; 5% of cases run through a real channel/read loop (peer EOF / read error / parked). "
          "Non-trivial = the first malformed or truncated frame follows at least one valid frame. Distinct by case hash.",
-    required=["codec:varlen", "varlen:source-offers-more-than-max", "codec:lf", "codec:prep", "codec:varint", "codec:delim", "codec:fixed", "layer:channel", "bad-after-valid",
+    required=["inbound:packets", "packet-truncated-frame-raised", "empty-reads", "codec:varlen", "varlen:source-offers-more-than-max", "codec:lf", "codec:prep", "codec:varint", "codec:delim", "codec:fixed", "layer:channel", "bad-after-valid",
               "first-bad:truncated", "first-bad:reject", "ends-at-frame-boundary", "end:eof", "end:err", "end:park", "delivered-ok", "raised:"],
     assumptions=["reference decoders follow the documented parameter semantics",
                  "a message whose consumer-side read ends with a non-EOF error counts as not delivered (a real consumer raises)"],
@@ -146,7 +146,7 @@ CHECKS["C02"] = dict(
          "parked for ever. about 1 case in 400 is a real-goroutine stress (2-3 writers x 5-20 writes on a queue of 1-2 with the default executor, 400 "
          "rounds) for windows without any hook point; there the terminal state is 'all writers returned and no sender action submitted "
          "or running' (counted by the executor), so a stranded packet is a fact. Non-trivial = an enqueue happened while the sender was between its last queue poll and its release. Distinct by case hash.",
-    required=["kind:qblock", "kind:qnonblock", "kind:sync", "queue:1", "queue:2", "queue:>2", "enqueue-in-release-window", "multi-enqueue", "sender-restarted", "stress"],
+    required=["more-than-a-megabyte-queued", "kind:qblock", "kind:qnonblock", "kind:sync", "queue:1", "queue:2", "queue:>2", "enqueue-in-release-window", "multi-enqueue", "sender-restarted", "stress"],
     assumptions=_E1_ASSUME + ["'eventually' is decided as stuck-state detection: every action handed to the executor has run to completion"],
 )
 CHECKS["C10"] = dict(
